@@ -267,6 +267,7 @@ def run(ctx):
     excl = stale_open()
     ctx.assume("receivers are fed complete packets; end of the scripted stream is EOF (b'' from recv)")
     ctx.assume("compression context is re-created at every key exchange (RFC 4253 6.2) in the reference")
+    ctx.assume("scripted socket timeouts / EAGAIN are raised only while unread bytes are buffered (an empty scripted stream is EOF); a pending re-key is answered by reading on, as Transport.run does, until the session script performs the next key exchange")
     if ctx.quick:
         ctx.explore(case_strategy(True, exclude_stale=excl), lambda c: execute(ctx, c), ctx.scale(700, 0))
     else:
